@@ -158,7 +158,8 @@ def main(argv):
         cands = []
         for g in range(ngen):
             size = "heavy" if g % 4 != 3 else "small"
-            cands.append({"name": "g%03d.as" % g, "text": progen.gen_program(vsim.Rng(seed, "c09-gen", g), size=size).encode(),
+            cands.append({"name": "g%03d.as" % g, "text": progen.gen_program(vsim.Rng(seed, "c09-gen", g), size=size,
+                                                                              force=("frag",) if g % 4 == 1 else ()).encode(),
                           "origin": "generated"})
         cs = worlds.corpus(max_bytes=5000)
         rngc = vsim.Rng(seed, "c09-corpus")
